@@ -8,6 +8,7 @@ import SkgVerif.Model.CrossVal
 import SkgVerif.Model.Fit
 import SkgVerif.Gen.Tables
 import SkgVerif.Gen.DirectionExec
+import SkgVerif.Model.CacheMachine
 import SkgVerif.Gen.ModelsExec
 import SkgVerif.Gen.STModelsExec
 /-!
@@ -249,6 +250,53 @@ def handleC12 : List String → Option String
           (f az tol bw th d, th)
         some s!"ok|{fmtList (fun (p : Bool × Float) => if p.1 then "1" else "0") out}|{fmtList (fun (p : Bool × Float) => fmtFloat p.2) out}"
       | _ => none
+  | _ => none
+
+
+def sourceActW (alt : Bool) (s : Setting) (c : Cache) : Action :=
+  if directional s then actOfTable Gen.directionalResets alt s c
+  else actOfTable Gen.variogramResets alt s c
+
+def parseSetting (t : String) : Option Setting :=
+  Setting.all.find? fun s => s.setter == t
+
+def parseRead : String → Option Read
+  | "bins" => some .bins | "bin_count" => some .binCount | "experimental" => some .experimental
+  | "parameters" => some .parameters | "transform" => some .transform | "diffs" => some .diffs
+  | _ => none
+
+def pattern (st : VState) : String :=
+  String.join (Cache.all.map fun c => if (st.cache c).isSome then "1" else "0")
+
+/-- stale (setting, cache) pairs of the filled caches -/
+def staleOf (st : VState) (c : Cache) : List String :=
+  match st.cache c with
+  | none => []
+  | some t => (Setting.all.filter fun s => deps c s && !t s).map fun s => s.setter
+
+def handleC06 : List String → Option String
+  | ["run", ops] => do
+      let toks := tokens ops
+      let rec go (st : VState) (ts : List String) (acc : List String) : Option (List String) :=
+        match ts with
+        | [] => some acc.reverse
+        | t :: rest =>
+          match t.splitOn ":" with
+          | ["s", name] => do
+              let alt := name.endsWith "!"
+              let name := if alt then (name.dropEnd 1).toString else name
+              let s ← parseSetting name
+              let st' := doSet (sourceActW alt) st s
+              go st' rest (s!"{pattern st'}" :: acc)
+          | ["r", name] => do
+              let r ← parseRead name
+              let fresh := freshRead st r
+              let st' := doRead st r
+              let stale := ",".intercalate (staleOf st' r.target)
+              go st' rest (s!"{pattern st'}:{if fresh then 1 else 0}:{stale}" :: acc)
+          | _ => none
+      let out ← go VState.init toks []
+      some s!"ok|{" ".intercalate out}"
   | _ => none
 
 end Skg
